@@ -168,7 +168,7 @@ class WMSSource(MapLayer):
         if self.opacity is not None or other.opacity is not None:
             return False
 
-        if self.supported_srs != other.supported_srs:
+        if _srs_codes(self.supported_srs) != _srs_codes(other.supported_srs):
             return False
 
         if self.supported_formats != other.supported_formats:
@@ -211,6 +211,11 @@ class WMSSource(MapLayer):
                          coverage=self.coverage,
                          fwd_req_params=self.fwd_req_params,
                          )
+
+
+def _srs_codes(supported_srs):
+    # equal SRS can have different srs_codes (EPSG:3857/900913)
+    return [getattr(srs, 'srs_code', srs) for srs in supported_srs]
 
 
 class WMSInfoSource(InfoSource):
